@@ -127,8 +127,13 @@ def check_R(ctx, facts):
 
 def check(ctx):
     facts = ctx.facts('prod')
-    roots = [facts.body(OS + 'insert_with_source'), facts.body(OS + 'delete_with_source'),
-             facts.body(NV + 'try_update_max_stamp')]
+    roots = [facts.body(OS + 'insert_with_source'), facts.body(OS + 'delete_with_source')]
+    # the per-source stamp update the mutators gate on (found by role: the NodeVersions predicate steering their early return)
+    stamp = None
+    if roots[0] is not None:
+        for pname in sorted(gate.gate_predicates(facts, roots[0])):
+            stamp = stamp or facts.body(NV + pname)
+    roots.append(stamp)
     if any(r is None for r in roots):
         ctx.bad('C04.L', 'anchors', '', 'insert_with_source / delete_with_source / try_update_max_stamp not found (fail closed)')
         return
